@@ -20,7 +20,8 @@ pu      = name@a@b@val                            b = "-" for an open-ended upda
 queries = ord,ord,…                               dates at which formulas and parameters are read
 stage   = (ok|ERR):<snap>;<snap>;…                one snapshot per system alive, "=" when the
                                                   snapshot is the one of the previous stage
-snap    = n=<names>/e=<key^bound^fresh,…>/P=<k>/p=<name@ord=val,…>/v=<var>+<var>+…
+snap    = n=<names>/e=<key^bound^fresh^names-for-the-entity,…>/P=<k>/u=<prototype entities still unbound>
+          /r=<index of base_tax_benefit_system | x>/p=<name@ord=val,…>/v=<var>+<var>+…
 var     = name(own,bl,via,vt,default,entity,defperiod,end,setinput,neutralized,formulas,at)
 ```
 `own` = smallest index of a system that resolves the name to the identical object, `bl` = the same
@@ -52,13 +53,16 @@ def parseFormulas? (s : String) : Option (List (Int × Nat)) :=
 
 def parseClassDef? (s : String) : Option ClassDef :=
   match s.splitOn ":" with
-  | [name, vt, dflt, ent, dp, e, si, fs] => do
+  | [name, vt, dflt, ent, dp, e, si, fs] => mk name vt dflt ent dp e si fs
+  | [name, vt, dflt, ent, dp, e, si, fs, _meta] => mk name vt dflt ent dp e si fs   -- descriptive metadata: not modelled
+  | _ => none
+where
+  mk (name vt dflt ent dp e si fs : String) : Option ClassDef := do
     if name = "" then none
     let e ← parseOptInt? e
     let fs ← parseFormulas? fs
     pure { name := name, valueType := optTok vt, default := optTok dflt, entity := optTok ent,
            defPeriod := optTok dp, endDate := e, setInput := optTok si, formulas := fs }
-  | _ => none
 
 def parsePUpd? (s : String) : Option PUpd :=
   match s.splitOn "@" with
@@ -182,10 +186,10 @@ def showVar (st : State) (k : Nat) (sid : Oid) (s : SysObj) (qs : List Int) (nam
       let vw := v.view
       let fs := if v.formulas.isEmpty then "-" else
         "^".intercalate (v.formulas.map fun p => s!"{p.1}>{showFml p.2}")
-      let ats := "^".intercalate (qs.map fun d => showOptFml (getFormula vw d))
+      let ats := "^".intercalate (showOptFml (v.formulas.head?.map (·.2)) :: qs.map fun d => showOptFml (getFormula vw d))
       s!"{name}({own},{bl},{via},{v.valueType},{v.default},{v.entity},{v.defPeriod},{showOptInt v.endDate},{showOptStr v.setInput},{if v.isNeutralized then "T" else "F"},{fs},{ats})"
 
-def showSnap (st : State) (qs : List Int) (k : Nat) (sid : Oid) : String :=
+def showSnap (nproto : Nat) (st : State) (qs : List Int) (k : Nat) (sid : Oid) : String :=
   let h := st.heap
   match h.getSys sid with
   | none => "?"
@@ -196,7 +200,7 @@ def showSnap (st : State) (qs : List Int) (k : Nat) (sid : Oid) : String :=
     let ents := s.entities.map fun e =>
       match h.getEnt e with
       | none => "?"
-      | some eo => s!"{eo.key}^{if eo.system == some sid then "T" else "F"}^{if earlier.contains e then "F" else "T"}"
+      | some eo => s!"{eo.key}^{if eo.system == some sid then "T" else "F"}^{if earlier.contains e then "F" else "T"}^{"~".intercalate (sortStrs (namesFor h sid eo.key))}"
     let plabel := match firstIdx (fun j => match st.systems[j]? with
                       | some sj => (match h.getSys sj with | some o => o.params == s.params | none => false)
                       | none => false) (k + 1) with
@@ -204,14 +208,20 @@ def showSnap (st : State) (qs : List Int) (k : Nat) (sid : Oid) : String :=
     let pnames := match h.getPar s.params with | some p => sortStrs (p.map (fun (q : String × List (Entry String)) => q.1)) | none => []
     let preads := pnames.flatMap fun n => qs.map fun d =>
       s!"{n}@{d}={showOptStr (paramObs h sid n d)}"
+    let root := rootOf h.next h sid
+    let rlabel := match firstIdx (fun j => st.systems[j]? == some root) st.systems.length with
+                  | some j => toString j | none => "x"
+    let unbound := (List.range nproto).all fun i =>
+      match h.getEnt i with | some eo => eo.system.isNone | none => false
     "n=" ++ ",".intercalate names ++ "/e=" ++ ",".intercalate ents ++ "/P=" ++ plabel
+      ++ "/u=" ++ (if unbound then "T" else "F") ++ "/r=" ++ rlabel
       ++ "/p=" ++ ",".intercalate preads
       ++ "/v=" ++ "+".intercalate (names.map (showVar st k sid s qs))
 
-def snaps (st : State) (qs : List Int) : List String :=
+def snaps (nproto : Nat) (st : State) (qs : List Int) : List String :=
   (List.range st.systems.length).map fun k =>
     match st.systems[k]? with
-    | some sid => showSnap st qs k sid
+    | some sid => showSnap nproto st qs k sid
     | none => "?"
 
 /-- print the snapshots, replacing those equal to the previous stage's by `=` -/
@@ -222,12 +232,12 @@ def stageText (flag : String) (prev cur : List String) : String :=
     | [], _ => []
   flag ++ ":" ++ ";".intercalate (go cur prev)
 
-def runAll (st : State) (qs : List Int) (prev : List String) : List Op → List String
+def runAll (nproto : Nat) (st : State) (qs : List Int) (prev : List String) : List Op → List String
   | [] => []
   | op :: r =>
     let (st', okFlag) := step st op
-    let cur := snaps st' qs
-    stageText (if okFlag then "ok" else "ERR") prev cur :: runAll st' qs cur r
+    let cur := snaps nproto st' qs
+    stageText (if okFlag then "ok" else "ERR") prev cur :: runAll nproto st' qs cur r
 
 end Sys
 
@@ -241,8 +251,8 @@ def handleSys (args : List String) : String :=
       match Sys.mkBase keys p cs with
       | none => "ERR"
       | some st =>
-        let s0 := Sys.snaps st qs
-        "|".intercalate (Sys.stageText "ok" [] s0 :: Sys.runAll st qs s0 ops)
+        let s0 := Sys.snaps keys.length st qs
+        "|".intercalate (Sys.stageText "ok" [] s0 :: Sys.runAll keys.length st qs s0 ops)
     | _, _, _, _ => "BAD"
   | _ => "BAD"
 
